@@ -9,7 +9,7 @@ use std::sync::atomic::{AtomicU64, Ordering};
 use vcore::ev::{catch, h64, Check, Ctx, Failure};
 use vcore::gen::prescribed_len;
 
-use crate::frames::{drive, Suite};
+use crate::frames::{drive, drive_families, replay_family, Suite};
 
 #[derive(Default)]
 pub struct Hist {
@@ -180,6 +180,15 @@ pub fn check_total(ctx: &Ctx, h: &Hist, frame: &[u8]) -> Check {
     Ok(())
 }
 
+/// What a caller can observe of one decode: the message (Debug form, which shows every field) and its text, or the error.
+pub fn observable(f: &[u8]) -> String {
+    catch(|| match Message::try_from(f) {
+        Ok(m) => format!("{m:?}\n{m}"),
+        Err(e) => format!("Err({e})"),
+    })
+    .unwrap_or_else(|p| format!("PANIC {p}"))
+}
+
 /// reduce a panic message to its stable part (used in signatures)
 pub fn site(p: &str) -> String {
     let s: String = p.chars().filter(|c| !c.is_ascii_digit()).take(48).collect();
@@ -187,7 +196,7 @@ pub fn site(p: &str) -> String {
 }
 
 pub fn run(ctx: &Ctx) {
-    ctx.set_rule("byte strings of length 0..=32 from (1) a structured generator: DF 0..31, own length 85 %, CA/CF/TC/subtype/version uniform, valid parity 90 %, DF16/20/21 payloads from 16 register templates with min/max/random fields, byte mixtures {random, 00, FF, one-hot, extremes, bit runs}; (2) uniform random bytes; (3) the repository's 39 test frames with 1-3 random field edits; (4) one base frame per (DF, CA/CF, TC, subtype, version, template) shape with every byte position swept over all 256 values (thorough: every 16-bit window of the ME/MB field over all 65536 values), parity refreshed. Oracle under catch_unwind: no panic in try_from / from_bytes / Display / Debug / alternate forms; accepted => length is the 7 or 14 bytes the DF prescribes; decoding twice equal; from_bytes consumes exactly the frame. Non-trivial = accepted frame or wrong-length input; distinct by hash of the bytes.");
+    ctx.set_rule("byte strings of length 0..=32 from (1) a structured generator: DF 0..31, own length 85 %, CA/CF/TC/subtype/version uniform, valid parity 90 %, DF16/20/21 payloads from 16 register templates with min/max/random fields, byte mixtures {random, 00, FF, one-hot, extremes, bit runs}; (2) uniform random bytes; (3) the repository's 39 test frames with 1-3 random field edits; (4) one base frame per (DF, CA/CF, TC, subtype, version, template) shape with every byte position swept over all 256 values (thorough: every 16-bit window of the ME/MB field over all 65536 values), parity refreshed. Oracle under catch_unwind: no panic in try_from / from_bytes / Display / Debug / alternate forms; accepted => length is the 7 or 14 bytes the DF prescribes; decoding twice equal; from_bytes consumes exactly the frame. (5) families of related inputs (same Comm-B payload under other headers, a truncated / padded copy and the frame, the same field under another DF, other address, one bit apart) each evaluated in the given order, in reverse order and alone after an unrelated input on one thread: all evaluations of one input must be equal. Non-trivial = accepted frame or wrong-length input; distinct by hash of the bytes.");
     ctx.assume("termination is observed through the check's watchdog only (exit 2); the readers are loop-free over <= 14 bytes");
     let h = Hist::default();
     let suite = Suite::for_tier(ctx.tier);
@@ -202,6 +211,8 @@ pub fn run(ctx: &Ctx) {
             ctx.judge(check_total(ctx, &h, &f));
         }
     }
+    // decoding is a function of the bytes only: related inputs in several orders on one thread
+    drive_families(ctx, "c01", ctx.tier.pick(160_000, 2_400_000), &observable);
     // thorough: coverage-guided campaign (libFuzzer) with the same oracle inside the target
     crate::fuzzrun::decode_campaign(ctx, "c01", &|f| check_total(ctx, &h, f));
     export(ctx, &h);
@@ -236,6 +247,9 @@ pub fn run(ctx: &Ctx) {
 }
 
 pub fn replay(ctx: &Ctx, v: &Value) {
+    if v["kind"] == "family" {
+        return replay_family(ctx, "c01", v, &observable);
+    }
     let h = Hist::default();
     let frame = v["frame"].as_str().and_then(|x| hex::decode(x).ok()).unwrap_or_default();
     ctx.judge(check_total(ctx, &h, &frame));
